@@ -163,6 +163,49 @@ pub fn run_case<G: AffineRepr>(run: u64, case: &Case, st: &mut Stats) {
             st.probe("followup-equal");
         }
     }
+    // the same discipline through batch_verify: every member's transcript must
+    // go through exactly the scheduled operations (nothing extra squeezed from
+    // or absorbed into the caller's live transcript), so that the transcripts
+    // the caller keeps drive the same follow-up challenges as the prover's
+    if honest_ok && v.accepted() && run % 2 == 0 {
+        use ark_bulletproofs::r1cs::batch_verify;
+        use merlin::Transcript;
+        let pc = pc_gens_for::<G>(&case.base.st.bases);
+        merlin::sim::start_recording();
+        let mut t1 = Transcript::new(TLABELS[case.base.st.tlabel]);
+        let mut t2 = Transcript::new(TLABELS[case.base.st.tlabel]);
+        let (id1, id2) = (t1.sim_id(), t2.sim_id());
+        let mut brng = CountingRng::new(case.base.ext_seed ^ 0x6a7c, RngMode::Normal);
+        let r = catch(|| {
+            let (v1, _) = build_verifier::<G>(&case.base.st, &pr.commitments, &mut t1);
+            let (v2, _) = build_verifier::<G>(&case.base.st, &pr.commitments, &mut t2);
+            batch_verify(&mut brng, vec![(v1, &proof), (v2, &proof)], &pc, &bp_v)
+        });
+        let blog = merlin::sim::stop_recording();
+        match r {
+            Err(_) => st.probe("real-panicked(C08)"),
+            Ok(res) => {
+                if res.is_ok() {
+                    for (k, id) in [id1, id2].iter().enumerate() {
+                        let ops = main_ops(&blog, *id);
+                        if ops != rf.sched {
+                            viol(st, "batch-member-history-equals-schedule", format!("batch_verify: the transcript of member {} deviates from the schedule: {}", k, first_diff(&ops, &rf.sched)), None);
+                            return;
+                        }
+                    }
+                    let mut f1 = vec![0u8; 32];
+                    t1.challenge_bytes(b"bpsim-followup", &mut f1);
+                    if Some(&f1) != out.followup.as_ref() {
+                        viol(st, "followup-challenges-equal", "after batch_verify the verifier's transcript drives a different follow-up challenge than the prover's".into(), None);
+                        return;
+                    }
+                    st.probe("batch-member-histories-checked");
+                } else {
+                    st.probe("batch-of-honest-rejected(C07)");
+                }
+            }
+        }
+    }
     st.distinct(&format!("{}|{}|{}", case.base.st.curve.name(), case.base.st.shape(), rf.sched.len()));
     let mut dig = vec![];
     for o in &rf.sched {
